@@ -68,7 +68,7 @@ def m_to_lower(ex, f, a):
     t = pystr(ex.deref(a[0])); return mkstr(t.lower() if 'lower' in f else t.upper())
 @pattern(r'^(core::)?str::<impl str>::(starts_with|ends_with|contains|strip_prefix|strip_suffix|find|rfind|split|trim|trim_start|trim_end|trim_matches|trim_start_matches|trim_end_matches|replace|split_once|rsplit_once|lines|split_whitespace|repeat|parse|rsplit|splitn|eq_ignore_ascii_case|is_char_boundary|split_at|get)(::<.*>)?$')
 def m_str_misc(ex, f, a):
-    op = re.search(r'::(\w+)(::<.*>)?$', f).group(1)
+    op = mt.strip_generics(f).rsplit('::', 1)[1]
     s_ = ex.deref(a[0])
     def pat(i=1):
         p = ex.deref(a[i])
@@ -297,7 +297,7 @@ def m_into_iter(ex, f, a):
     return as_iter(ex, a[0], st.startswith('&') or isinstance(a[0], Ref))
 @pattern(r'^<.* as (Iterator|DoubleEndedIterator|ExactSizeIterator)>::(\w+)(::<.*>)?$', prio=8)
 def m_iter_method(ex, f, a):
-    op = re.search(r'>::(\w+)(::<.*>)?$', f).group(1)
+    op = mt.strip_generics(f).rsplit('::', 1)[1]
     it = a[0]
     if isinstance(it, Ref): it = it.get()
     if not isinstance(it, Iter): it = as_iter(ex, it)
